@@ -27,7 +27,7 @@ pub struct TextRange { pub start: TextSize, pub end: TextSize }
 #[verifier::external_body] pub struct FileReference { _p: () }
 #[verifier::external_body] pub struct StringReference { _p: () }
 #[verifier::external_body] pub struct FileLabelReferences { _p: () }
-#[verifier::external_body] #[derive(PartialEq, Eq, Hash)] pub struct LuaSyntaxId { _p: () }
+#[verifier::external_body] #[derive(Clone, Copy, PartialEq, Eq, Hash)] pub struct LuaSyntaxId { _p: () }
 #[verifier::external_body] #[derive(PartialEq, Eq, Hash)] pub struct LuaMemberKey { _p: () }
 #[verifier::external_body] #[derive(PartialEq, Eq, Hash)] pub struct SmolStr { _p: () }
 impl Clone for LuaMemberKey { #[verifier::external_body] fn clone(&self) -> (r: Self) ensures r == *self { unimplemented!() } }
@@ -36,6 +36,13 @@ impl Clone for SmolStr { #[verifier::external_body] fn clone(&self) -> (r: Self)
 //@@ LuaOperatorId
 //@@ LuaOperatorMetaMethod
 //@@ LuaOperatorOwner
+// member index
+#[verifier::external_body] pub struct LuaMember { _p: () }
+//@@ LuaMemberId
+//@@ LuaMemberIndexItem
+//@@ LuaMemberOwner
+//@@ MemberOrOwner
+//@@ OwnerMemberStatus
 //@@ LuaOperator
 impl LuaOperator {
     //@@ LuaOperator::get_owner
@@ -51,9 +58,18 @@ pub open spec fn keys_ok() -> bool {
     &&& vstd::std_specs::hash::obeys_key_model::<LuaOperatorMetaMethod>()
     &&& vstd::std_specs::hash::obeys_key_model::<LuaMemberKey>()
     &&& vstd::std_specs::hash::obeys_key_model::<SmolStr>()
+    &&& vstd::std_specs::hash::obeys_key_model::<LuaMemberId>()
+    &&& vstd::std_specs::hash::obeys_key_model::<LuaMemberOwner>()
+    &&& vstd::std_specs::hash::obeys_key_model::<MemberOrOwner>()
 }
 
 // ---- std contracts (trusted, restated from the std documentation) ---------------------------------
+/// HashSet::into_iter (the `for x in set` loops): yields every element exactly once, order unspecified (as in unit c10_remove)
+#[verifier::external_body]
+pub fn vx_set_into_vec<T>(s: HashSet<T>) -> (r: Vec<T>)
+    ensures r@.to_set() == s@, r@.no_duplicates(),
+{ s.into_iter().collect() }
+
 pub open spec fn filter_by<T>(s: Seq<T>, keep: Seq<bool>) -> Seq<T>
     decreases s.len()
 {
@@ -146,6 +162,12 @@ pub open spec fn metatable_cofiled(m: Map<InFiled<TextRange>, InFiled<TextRange>
 
 //@@include c10_remove2/operator_spec.rs
 //@@include c10_remove2/reference_spec.rs
+//@@ LuaOwnerMembers
+impl LuaOwnerMembers {
+    //@@ LuaOwnerMembers::remove_member
+    //@@ LuaOwnerMembers::is_empty
+}
+//@@include c10_remove2/member_spec.rs
 
 // ---- extracted from /repo --------------------------------------------------------------------------
 //@@ LuaMetatableIndex
@@ -166,6 +188,62 @@ impl LuaOperatorIndex {
 //@@ LuaReferenceIndex
 impl LuaReferenceIndex {
     //@@ LuaReferenceIndex::remove
+}
+//@@ LuaMemberIndex
+pub open spec fn mo_listed(s: &LuaMemberIndex, f: FileId) -> Set<MemberOrOwner> {
+    if s.in_filed@.contains_key(f) { s.in_filed@[f]@ } else { Set::empty() }
+}
+impl LuaMemberIndex {
+    //@@ LuaMemberIndex::remove
+}
+
+// ---- DbIndex::remove: the delegation to the five indexes of this unit -----------------------------------
+// the other indexes: keyed directly by file -> unit c10_remove; type / module / json-schema: no contract here (not_covered)
+#[verifier::external_body] pub struct LuaDeclIndex { _p: () }
+#[verifier::external_body] pub struct LuaTypeIndex { _p: () }
+#[verifier::external_body] pub struct LuaModuleIndex { _p: () }
+#[verifier::external_body] pub struct LuaPropertyIndex { _p: () }
+#[verifier::external_body] pub struct LuaSignatureIndex { _p: () }
+#[verifier::external_body] pub struct DiagnosticIndex { _p: () }
+#[verifier::external_body] pub struct LuaFlowIndex { _p: () }
+#[verifier::external_body] pub struct LuaDependencyIndex { _p: () }
+#[verifier::external_body] pub struct JsonSchemaIndex { _p: () }
+impl LuaDeclIndex { #[verifier::external_body] pub fn remove(&mut self, file_id: FileId) { unimplemented!() } }
+impl LuaTypeIndex { #[verifier::external_body] pub fn remove(&mut self, file_id: FileId) { unimplemented!() } }
+impl LuaModuleIndex { #[verifier::external_body] pub fn remove(&mut self, file_id: FileId) { unimplemented!() } }
+impl LuaPropertyIndex { #[verifier::external_body] pub fn remove(&mut self, file_id: FileId) { unimplemented!() } }
+impl LuaSignatureIndex { #[verifier::external_body] pub fn remove(&mut self, file_id: FileId) { unimplemented!() } }
+impl DiagnosticIndex { #[verifier::external_body] pub fn remove(&mut self, file_id: FileId) { unimplemented!() } }
+impl LuaFlowIndex { #[verifier::external_body] pub fn remove(&mut self, file_id: FileId) { unimplemented!() } }
+impl LuaDependencyIndex { #[verifier::external_body] pub fn remove(&mut self, file_id: FileId) { unimplemented!() } }
+impl JsonSchemaIndex { #[verifier::external_body] pub fn remove(&mut self, file_id: FileId) { unimplemented!() } }
+
+pub open spec fn removed_metatable(o: &LuaMetatableIndex, n: &LuaMetatableIndex, f: FileId) -> bool {
+    &&& forall|k: InFiled<TextRange>| #[trigger] n.metatables@.contains_key(k) <==> o.metatables@.contains_key(k) && k.file_id != f
+    &&& forall|k: InFiled<TextRange>| #[trigger] n.metatables@.contains_key(k) ==> n.metatables@[k] == o.metatables@[k]
+}
+pub open spec fn removed_global(o: &LuaGlobalIndex, n: &LuaGlobalIndex, f: FileId) -> bool {
+    &&& forall|k: GlobalId| #[trigger] n.global_decl@.contains_key(k) <==> o.global_decl@.contains_key(k) && decls_not_of(o.global_decl@[k]@, f).len() > 0
+    &&& forall|k: GlobalId| #[trigger] n.global_decl@.contains_key(k) ==> n.global_decl@[k]@ == decls_not_of(o.global_decl@[k]@, f)
+}
+pub open spec fn removed_operator(o: &LuaOperatorIndex, n: &LuaOperatorIndex, f: FileId) -> bool {
+    op_wf(o.operators@, o.type_operators_map@, o.in_filed_operator_map@) ==>
+        op_removed(o.operators@, o.type_operators_map@, o.in_filed_operator_map@, n.operators@, n.type_operators_map@, n.in_filed_operator_map@, f)
+        && op_wf(n.operators@, n.type_operators_map@, n.in_filed_operator_map@)
+}
+pub open spec fn removed_reference(o: &LuaReferenceIndex, n: &LuaReferenceIndex, f: FileId) -> bool {
+    &&& swept(o.index_reference@, n.index_reference@, f) &&& swept(o.global_references@, n.global_references@, f)
+    &&& dropped(o.file_references@, n.file_references@, f) &&& dropped(o.string_references@, n.string_references@, f)
+    &&& dropped(o.type_references@, n.type_references@, f) &&& dropped(o.label_references@, n.label_references@, f)
+}
+pub open spec fn removed_member(o: &LuaMemberIndex, n: &LuaMemberIndex, f: FileId) -> bool {
+    member_wf(o.members@, o.member_current_owner@, o.owner_members@, o.in_filed@) ==>
+        member_removed(o.members@, o.member_current_owner@, o.owner_members@, o.in_filed@, n.members@, n.member_current_owner@, n.owner_members@, n.in_filed@, f)
+        && member_wf(n.members@, n.member_current_owner@, n.owner_members@, n.in_filed@)
+}
+//@@ DbIndex
+impl DbIndex {
+    //@@ DbIndex::remove
 }
 
 } // verus!
